@@ -38,7 +38,8 @@ partial def jPyExpr (j : Json) : Except String PyExpr := do
   | [.str "bin", op, l, r] => pure (.bin (← jBinOp op) (← jPyExpr l) (← jPyExpr r))
   | [.str "cmp", l, ops, rs] => pure (.cmp (← jPyExpr l) (← jList jCmpOp ops) (← jList jPyExpr rs))
   | [.str "ife", c, t, e] => pure (.ife (← jPyExpr c) (← jPyExpr t) (← jPyExpr e))
-  | [.str "call", tgt, args] => pure (.call (← jTarget tgt) (← jList jPyExpr args))
+  | [.str "call", .str func, args] => pure (.call func (← jList jPyExpr args))
+  | [.str "callkw", .str func, args] => pure (.callKw func (← jList jPyExpr args))
   | [.str "unsupported"] => pure .unsupported
   | _ => .error s!"bad py expr {j.compress}"
 
@@ -59,6 +60,7 @@ def jGVal (j : Json) : Except String GVal := do
   | [.str "flt", q] => pure (.flt (← jRat q))
   | [.str "int", q] => pure (.int (← jRat q))
   | [.str "special", .str c, q] => pure (.special c (← jRat q))
+  | [.str "fn", tgt] => pure (.fn (← jTarget tgt))
   | [.str "other"] => pure .other
   | _ => .error s!"bad global {j.compress}"
 
